@@ -1,7 +1,7 @@
 """Adapters for request IDs, service-1 verification reports and enumerated packet fields."""
 from __future__ import annotations
 
-from .core import outcome, octs, rxbuf, decoded, scramble
+from .core import outcome, octs, rxbuf, decoded, scramble, owned
 from .ops_ecss import tm_proj, mk_tc
 from .probe import decode_other
 
@@ -45,12 +45,31 @@ def op_reqid_rt(a):
 
     def run():
         q = mk_req(a["r"], a.get("via", "ctor"))
-        raw = q.pack()
+        raw = owned(q.pack)
         d = RequestId.unpack(rxbuf(raw, a["sfx"]))
         scramble()
         return {"octets": octs(raw), "u32": _u32(q.as_u32()), "dec": proj_req(d), "du32": _u32(d.as_u32()),
                 "eq": bool(d == q) and bool(q == d), "hashok": hash(d) == hash(q), "repack": octs(d.pack())}
     return outcome(run)
+
+
+_UP = {}
+
+
+def unpack_params(ts, sw, ew):
+    """The decoder parameters as an application keeps them: ONE UnpackParams object per (time stamp length, step width,
+    error-code width), re-used for every report decoded with those widths. A decode must not change its argument: the
+    object is checked before it is handed out again."""
+    from spacepackets.ecss import pus_1_verification as S
+    key = (ts, sw, ew)
+    up = _UP.get(key)
+    if up is None:
+        up = _UP[key] = S.UnpackParams(ts, sw, ew)
+    elif (up.timestamp_len, up.bytes_step_id, up.bytes_err_code) != key:
+        seen = (up.timestamp_len, up.bytes_step_id, up.bytes_err_code)
+        del _UP[key]
+        raise AssertionError(f"an earlier decode changed the caller's UnpackParams {key} to {seen}")
+    return up
 
 
 def op_reqid_unpack(a):
@@ -144,16 +163,16 @@ def op_srv1_rt(a):
 
     def run():
         o = mk_srv1(a)
-        raw = o.pack()
+        raw = owned(o.pack)
         p = a["p"]
         sw, ew = _widths(p)
-        up = S.UnpackParams(len(p["stamp"]), sw, ew)
+        up = unpack_params(len(p["stamp"]), sw, ew)
         buf = rxbuf(raw, a["sfx"])
         if a.get("via") == "from_tm":
             d = S.Service1Tm.from_tm(PusTm.unpack(buf, len(p["stamp"])), up)
         else:
             d = S.Service1Tm.unpack(buf, up)
-        decode_other("srv1", lambda b: S.Service1Tm.unpack(b, S.UnpackParams(7, 1, 1)))
+        decode_other("srv1", lambda b: S.Service1Tm.unpack(b, unpack_params(7, 1, 1)))
         ec = d.error_code
         if p["fail"] and (ec is None or proj_enum(ec, "code")["code"] != proj_fail(d.failure_notice)["code"]):
             return {"error_code_view": "inconsistent"}
@@ -167,7 +186,7 @@ def op_srv1_unpack(a):
     from spacepackets.ecss import pus_1_verification as S
 
     def run():
-        d = decoded(lambda: S.Service1Tm.unpack(bytes(a["octets"]), S.UnpackParams(a["tslen"], a["stepw"], a["errw"])))
+        d = decoded(lambda: S.Service1Tm.unpack(bytes(a["octets"]), unpack_params(a["tslen"], a["stepw"], a["errw"])))
         return {"v": proj_srv1(d), "repack": octs(d.pack())}
     return outcome(run)
 
@@ -177,7 +196,7 @@ def op_pfe_rt(a):
 
     def run():
         e = PacketFieldEnum(a["pfc"], _i(a["v"]))
-        raw = e.pack()
+        raw = owned(e.pack)
         d = PacketFieldEnum.unpack(bytes(raw), a["pfc"])
         return {"octets": octs(raw), "len": e.len(), "dec": list(int(d.val).to_bytes(d.len(), "big")), "eq": bool(d == e)}
     return outcome(run)
